@@ -324,6 +324,59 @@ theorem cutoff_state_machine_facts :
        "ctx.iterationsCache[ref] = arg", "return arg, nil"] ∧
     Facts.C09.cutoffRefused = ["ctx.mu.Unlock()", "return ctx.iterationsCache[ref], nil"] := by decide
 
+/-- **Distinct references never share a counter or a cached answer.**  The visit counters and
+the result cache of one `CalcCellValue` are keyed by the reference: bumping the counter of `r`
+leaves the counter of every other reference and the whole cache unchanged; storing the answer of
+`r` leaves every other cache entry and every counter unchanged, and the entry read back for `r`
+is the one stored for `r`.  In the Go code the key is a string; the regenerated fact
+`ctxKeyExprs` pins that `cellResolver` (`ref :=`) and `CalcCellValue` (`entry:`) build it by the
+SAME expression `fmt.Sprintf("%s!%s", sheet, cell)`, and `keyOf_injective` shows that this
+expression is injective on (sheet, cell) whenever the cell name contains no `!` (cell names are
+letters, digits and `$`; the sheet name may contain anything, `!` included): the key splits at
+its last `!`.  So the model's "reference = `Nat`" loses nothing. -/
+theorem cutoff_keys_independent {V : Type} (c : Ctx V) (r r' : Nat) (v : V) (h : r' ≠ r) :
+    (bump c r).iterations r' = c.iterations r' ∧ (bump c r).cache = c.cache ∧
+    (setCache c r v).cache r' = c.cache r' ∧ (setCache c r v).cache r = some v ∧
+    (setCache c r v).iterations = c.iterations := by
+  refine ⟨?_, ?_, ?_, ?_, rfl⟩
+  · unfold bump; split <;> simp [h]
+  · unfold bump; split <;> rfl
+  · simp [setCache, h]
+  · simp [setCache]
+
+/-- `fmt.Sprintf("%s!%s", sheet, cell)` on character lists -/
+def keyOf (sheet cell : List Char) : List Char := sheet ++ '!' :: cell
+
+/-- the key expression is injective when the cell names contain no `!` -/
+theorem keyOf_injective : ∀ (s₁ s₂ c₁ c₂ : List Char), '!' ∉ c₁ → '!' ∉ c₂ →
+    keyOf s₁ c₁ = keyOf s₂ c₂ → s₁ = s₂ ∧ c₁ = c₂ := by
+  intro s₁
+  induction s₁ with
+  | nil =>
+    intro s₂ c₁ c₂ h1 h2 h
+    cases s₂ with
+    | nil => simpa [keyOf] using h
+    | cons x s₂ =>
+      simp only [keyOf, List.nil_append, List.cons_append, List.cons.injEq] at h
+      exact absurd (h.2 ▸ (by simp : '!' ∈ s₂ ++ '!' :: c₂)) h1
+  | cons a s₁ ih =>
+    intro s₂ c₁ c₂ h1 h2 h
+    cases s₂ with
+    | nil =>
+      simp only [keyOf, List.nil_append, List.cons_append, List.cons.injEq] at h
+      exact absurd (h.2 ▸ (by simp : '!' ∈ s₁ ++ '!' :: c₁)) h2
+    | cons x s₂ =>
+      simp only [keyOf, List.cons_append, List.cons.injEq] at h
+      obtain ⟨hs, hc⟩ := ih s₂ c₁ c₂ h1 h2 h.2
+      exact ⟨by rw [h.1, hs], hc⟩
+
+/-- the key of the counters and of the cache is built by one and the same expression at both
+sites, with the separator `!` between sheet and cell (regenerated from calc.go) -/
+theorem cutoff_key_fact :
+    Facts.C09.ctxKeyExprs =
+      ["cellResolver: ref := fmt.Sprintf(\"%s!%s\", sheet, cell)",
+       "CalcCellValue: entry: fmt.Sprintf(\"%s!%s\", sheet, cell)"] := by decide
+
 /-- **The visit counters only grow** during one `CalcCellValue` (every reference graph, every fuel):
 the cut-off is a monotone state machine, which is what makes `mu` a measure. -/
 theorem cutoff_counters_monotone {V : Type} (G : Graph V) (M entry fuel : Nat) (v : V) (c : Ctx V)
